@@ -8,6 +8,7 @@ import Dashu.Gen.Round
   * `roundFract`, `roundRatio`              ↔ `Round::round_fract`, `Round::round_ratio`
   * `digits`                                ↔ `utils::digit_len`
   * `splitDigits` (+ the per-base paths)    ↔ `utils::split_digits` / `split_digits_ref`
+  * `shlDigits`, `shrDigits`, `shrRef`      ↔ `utils::shl_digits(_in_place)`, `shr_digits`, `shr_ref`
 
   Estimate oracles (DESIGN §3): the coarse `f32` comparison at the head of `round_fract` is the
   parameter `coarse`; theorems hold for every oracle satisfying `CoarseSound`.
@@ -123,6 +124,31 @@ def splitDigits (B : Nat) (v : Int) (pos : Nat) : Int × Int :=
     (q', rem2 * ((2 ^ pos : Nat) : Int) + rem1)
   else if isPow2 B then splitBits v (pos * B.log2)
   else (Int.tdiv v ((B ^ pos : Nat) : Int), Int.tmod v ((B ^ pos : Nat) : Int))
+
+/-- `IBig << n` at value level (C09) -/
+def ishl (v : Int) (n : Nat) : Int := v * ((2 ^ n : Nat) : Int)
+
+/-- `utils::shl_digits::<B>` / `shl_digits_in_place::<B>`: multiply by `B^k`.  Four code paths: base 2
+    (`<< k`), base 10 (`(v · 5^k) << k`), power-of-two bases (`<< k·log2 B`), generic (`v · B^k`). -/
+def shlDigits (B : Nat) (v : Int) (k : Nat) : Int :=
+  if k = 0 then v
+  else if B = 2 then ishl v k
+  else if B = 10 then ishl (v * ((5 ^ k : Nat) : Int)) k
+  else if isPow2 B then ishl v (k * B.log2)
+  else v * ((B ^ k : Nat) : Int)
+
+/-- `utils::shr_ref(value, shift)`: right shift of the magnitude, sign kept (`IBig >>` would floor) -/
+def shrRef (v : Int) (n : Nat) : Int := (if v < 0 then -1 else 1) * ((v.natAbs >>> n : Nat) : Int)
+
+/-- `utils::shr_digits::<B>`: divide by `B^k` toward zero.  Four code paths: base 2 (`shr_ref`), base 10
+    (`shr_ref(v, k) / 5^k`), power-of-two bases (`shr_ref` by `k·log2 B` bits), generic (`v / B^k`,
+    `IBig` division truncates). -/
+def shrDigits (B : Nat) (v : Int) (k : Nat) : Int :=
+  if k = 0 then v
+  else if B = 2 then shrRef v k
+  else if B = 10 then Int.tdiv (shrRef v k) ((5 ^ k : Nat) : Int)
+  else if isPow2 B then shrRef v (k * B.log2)
+  else Int.tdiv v ((B ^ k : Nat) : Int)
 
 /-- what all three paths compute (proved in `Proofs/Float/Digits.lean`) -/
 def splitSpec (B : Nat) (v : Int) (pos : Nat) : Int × Int :=
